@@ -518,3 +518,79 @@ pub fn gen_pd_desc(rng: &mut Rng, o: &PdOpts) -> DeviceDesc {
     d.eeprom_bytes = build_sii(&d).len().next_power_of_two().max(2048);
     d
 }
+
+/// Independent SII *decoder* (ETG.2010 layout, written from the specification, not from
+/// ethercrab's parser): turns an image — a generated one or a real device's dump — back into the
+/// description fields the C12 oracle compares. `None` when the category chain is not well formed.
+pub fn decode_sii(image: &[u8]) -> Option<DeviceDesc> {
+    let w16 = |word: usize| -> Option<u16> { image.get(word * 2..word * 2 + 2).map(|b| u16::from_le_bytes([b[0], b[1]])) };
+    let w32 = |word: usize| -> Option<u32> { image.get(word * 2..word * 2 + 4).map(|b| u32::from_le_bytes([b[0], b[1], b[2], b[3]])) };
+    let mut d = DeviceDesc::simple("");
+    d.strings.clear();
+    d.has_general = false;
+    d.category_order.clear();
+    d.alias = w16(4)?;
+    d.vendor = w32(8)?;
+    d.product = w32(0xa)?;
+    d.revision = w32(0xc)?;
+    d.serial = w32(0xe)?;
+    let mbx = (w16(0x18)?, w16(0x19)?, w16(0x1a)?, w16(0x1b)?);
+    d.mailbox = if mbx == (0, 0, 0, 0) { None } else { Some(mbx) };
+    d.mailbox_protocols = w16(0x1c)?;
+    d.eeprom_bytes = (w16(0x3e)? as usize + 1) * 128;
+    let mut word = 0x40usize;
+    loop {
+        let ty = w16(word)?;
+        if ty == 0xffff {
+            break;
+        }
+        let len_words = w16(word + 1)? as usize;
+        let data = image.get((word + 2) * 2..(word + 2 + len_words) * 2)?;
+        match ty {
+            CAT_STRINGS => {
+                let n = *data.first()? as usize;
+                let mut pos = 1;
+                for _ in 0..n {
+                    let l = *data.get(pos)? as usize;
+                    d.strings.push(data.get(pos + 1..pos + 1 + l)?.to_vec());
+                    pos += 1 + l;
+                }
+            }
+            CAT_GENERAL => {
+                d.has_general = true;
+                d.group_idx = *data.first()?;
+                d.image_idx = *data.get(1)?;
+                d.order_idx = *data.get(2)?;
+                d.name_idx = *data.get(3)?;
+                d.coe_details = *data.get(5)?;
+                d.general_flags = *data.get(11)?;
+            }
+            CAT_FMMU => d.fmmus = data.to_vec(),
+            CAT_SM => {
+                for c in data.chunks_exact(8) {
+                    d.sms.push(SmDesc { start: u16::from_le_bytes([c[0], c[1]]), len: u16::from_le_bytes([c[2], c[3]]), control: c[4], enable: c[6], usage: c[7] });
+                }
+            }
+            CAT_FMMU_EX => d.fmmu_ex = data.chunks_exact(3).map(|c| c[1]).collect(),
+            CAT_TXPDO | CAT_RXPDO => {
+                let mut pos = 0;
+                while pos + 8 <= data.len() {
+                    let index = u16::from_le_bytes([data[pos], data[pos + 1]]);
+                    let n = data[pos + 2] as usize;
+                    let sm = data[pos + 3];
+                    pos += 8;
+                    let mut entries = vec![];
+                    for _ in 0..n {
+                        let e = data.get(pos..pos + 8)?;
+                        entries.push(PdoEntryDesc { index: u16::from_le_bytes([e[0], e[1]]), sub: e[2], bits: e[5] });
+                        pos += 8;
+                    }
+                    d.pdos.push(PdoDesc { index, sm, entries, tx: ty == CAT_TXPDO });
+                }
+            }
+            _ => {}
+        }
+        word += 2 + len_words;
+    }
+    Some(d)
+}
